@@ -576,6 +576,33 @@ def run_joint(case, stt):
     stt.label("kind_" + case["kind"])
 
 
+@st.composite
+def proc_case(draw):
+    cfg = draw(file_cfg())
+    return {"cfg": cfg, "o": draw(st.integers(0, 10**6)), "n": draw(st.integers(1, 40))}
+
+
+def run_proc(case, stt):
+    """a lazy read computed by the multiprocess scheduler: the reader travels to the worker by pickling"""
+    h = ReaderHist(stt)
+    h.apply(["open", case["cfg"]])
+    m = h.m
+    o, n = h.bounds(case["o"], case["n"])
+    with lib("dask_read(...).compute(scheduler='processes')"):
+        z = m.r.dask_read(o, n)
+        got = z.data.compute(scheduler="processes", num_workers=2)
+    exp, tol = m.expected(o, n)
+    if got.ndim == 1 and exp.ndim == 2:
+        exp = exp[:, 0]
+    if tol == 0.0:
+        check(got.tobytes() == exp.astype(got.dtype).tobytes(), "lazy read({}, {}) computed in worker processes differs from what the file encodes "
+              "(reader options: {})", o, n, case["cfg"].get("opts"))
+    elif got.size:
+        check(float(np.max(np.abs(got - exp))) <= tol, "lazy read({}, {}) computed in worker processes differs from the reference conversion", o, n)
+    stt.nt(m.lsb is not False)
+    stt.label("kind_" + case["cfg"]["kind"])
+
+
 SUBS = [
     MachineSub("read_histories", ReaderMachine,
                "rule-based machine per reader: the four sample files and files written by the check (VDIF real/complex with 1-4 threads, DADA "
@@ -590,4 +617,9 @@ SUBS = [
     Sub("joint_dask_reads", joint_case(), run_joint,
         "two readers of the same class on files with different content: lazy reads of the same (offset, n) computed in one dask.compute call must "
         "each return their own file's samples; non-trivial = same (offset, n)", quick=40, thorough=600, pieces_quick=4),
+    Sub("process_scheduler_reads", proc_case(), run_proc,
+        "lazy reads computed with dask's multiprocess scheduler (the reader object is pickled into the workers) for every file kind and reader "
+        "option; non-trivial = a lower-sideband reader", quick=5, thorough=150, pieces_quick=1, pieces_thorough=1, budget_quick=60),
 ]
+SUBS[-1].in_parent = True  # starts worker processes itself
+
